@@ -211,7 +211,7 @@ def run_tlc(module: str, cfg_path: str | None = None, *, cfg: dict | None = None
         write_cfg(cfg_file, **cfg)
     else:
         cfg_file = cfg_path if os.path.isabs(cfg_path) else os.path.join(SPEC, cfg_path)
-    cmd = ["java", "-XX:+UseParallelGC", f"-Xmx{heap}", f"-Djava.io.tmpdir={wd}",
+    cmd = ["java", "-XX:+UseParallelGC", "-Xss64m", f"-Xmx{heap}", f"-Djava.io.tmpdir={wd}",
            f"-DTLA-Library={SPEC}"]
     if dfs:
         cmd.append("-Dtlc2.tool.queue.IStateQueue=StateDeque")
